@@ -180,6 +180,9 @@ def run(tier, seed, agg):
     W = 3.5 if q else 5
     for payload, pu, cu, scale in (("scalar", "m", None, 1), ("scalar", "m", "km", Fr(1, 1000)), ("grid", "km", "m", 1000), ("scalar", "mm", "mm", 1)):
         cases.append(dict(kind="history", cfg=dict(consumers=[[]], window=W if payload == "scalar" else W - 1, units=pu, in_units=cu, value_scale=scale, expect_units=cu or pu, check_retention=True)))
+    for unit in (2, 7 * 86400 * 10**6):
+        cases.append(dict(kind="history", cfg=dict(consumers=[[]], window=3, units="m", in_units="km", value_scale=Fr(1, 1000), expect_units="km", check_retention=True, unit_us=unit)))
+    cases.append(dict(kind="history", cfg=dict(consumers=[[]], window=3, units="m", in_units="mm", value_scale=1000, expect_units="mm", check_retention=True, payload="masked")))
     cases.append(dict(kind="history", cfg=dict(consumers=[[], []], window=2.5 if q else 3.5, units="m", in_units="cm", value_scale=100, expect_units="cm", check_retention=True)))
     pairs = [(a, b) for a in FACT for b in FACT if FACT[a][1] == FACT[b][1]]
     for gname in grids():
